@@ -394,6 +394,134 @@ func main() {
 	}
 	if !r.Replaying() {
 		mergeSubcheck(r)
+		longLine(r, auth)
 	}
 	r.Finish()
+}
+
+// longLine is one deep, narrow history: the BFS above closes the state space of three images and
+// three names; a manifest index that only misbehaves beyond some size (a lookup that changes
+// strategy, a counter of limited width) needs hundreds of entries. 300 distinct images are endorsed
+// under 300 distinct names, then images already listed are re-cut under new names and existing
+// names are refreshed with overwrite; the state invariants are judged every 25 runs and after each
+// of the follow-up runs, the transition clauses on every run.
+func longLine(r *mc.Run, auth *fx.Authority) {
+	files := map[string][]byte{}
+	mkImage := func(i int) []byte {
+		img, _ := fx.Build(fx.ImageSpec{Size: 0x3000, Fill: func(b []byte) {
+			for j := range b {
+				b[j] = byte(j*7+i) ^ byte(i>>8) ^ byte(j>>9)
+			}
+		}, ResetAddr: 0xff0000ff, Sev: fx.DefaultSev(), Tdx: fx.SmallTdx(0x3000), SevMetaAt: 0x800, TdxMetaAt: 0x400})
+		return img
+	}
+	type step struct {
+		img  int
+		cand string
+		ow   bool
+	}
+	var steps []step
+	for i := 0; i < 300; i++ {
+		steps = append(steps, step{i, fmt.Sprintf("rc%04d", i), false})
+	}
+	steps = append(steps, step{3, "recut-a", false}, step{299, "recut-b", false}, step{150, "rc0007", true}, step{400, "rc0100", true}, step{400, "rc0200", true}, step{7, "rc0299", true}, step{500, "rc0300", false})
+	id := "long-line vcs=mem runs=307"
+	r.Case(id, func() string {
+		bad := 0
+		for k := range files {
+			delete(files, k)
+		}
+		for si, st := range steps {
+			img := mkImage(st.img)
+			ts := fx.T0.Add(time.Duration(si+1) * time.Minute)
+			ec := &endorse.Context{
+				SevSnp: &sev.SnpEndorsementRequest{LaunchVmsas: 1, ImageID: "87654321-dead-beef-c0de-123456789abc", Product: sgpb.SevProduct_SEV_PRODUCT_MILAN},
+				Image:  img, ClSpec: 42, Timestamp: ts, CandidateName: st.cand, OutDir: "out", ImageName: "fw.fd",
+				VCS: &memVCS{files: files},
+			}
+			before := map[string][]byte{}
+			for k, v := range files {
+				before[k] = v
+			}
+			ctx := endorse.NewContext(output.NewContext(auth.Ctx(), &output.Options{Quiet: true, Overwrite: st.ow}), ec)
+			var runErr error
+			pan, val := mc.Guard(func() { runErr = endorse.VirtualFirmware(ctx) })
+			r.Eval()
+			r.Transition(1)
+			where := fmt.Sprintf("run %d (image %d as %s, overwrite=%v)", si+1, st.img, st.cand, st.ow)
+			if pan {
+				bad++
+				r.Violation("long-line/panic", id, fmt.Sprintf("%s panicked: %v", where, val), nil)
+				break
+			}
+			// transition clauses
+			path := "out/" + st.cand + ".binarypb"
+			if old, existed := before[path]; existed && !st.ow && !bytes.Equal(old, files[path]) {
+				bad++
+				r.Violation("long-line/endorsement-file-replaced-without-overwrite", id, where+": an existing endorsement file was replaced without overwrite permission", nil)
+			}
+			if runErr == nil {
+				m := &rpb.VMEndorsementMap{}
+				prototext.Unmarshal(files["out/manifest.textproto"], m)
+				d := sha512.Sum384(img)
+				found := ""
+				for _, e := range m.Entries {
+					if bytes.Equal(e.Digest, d[:]) {
+						found = e.Path
+					}
+				}
+				if found != st.cand+".binarypb" {
+					bad++
+					r.Violation("long-line/latest-run-not-indexed", id, fmt.Sprintf("%s succeeded but the manifest (%d entries) maps its digest to %q", where, len(m.Entries), found), nil)
+				}
+			}
+			// state clauses
+			if si%25 == 24 || si >= 299 {
+				for _, p := range longStateProblems(files) {
+					bad++
+					r.Violation("long-line/"+p[0], id, fmt.Sprintf("after %s: %s", where, p[1]), nil)
+				}
+			}
+			if bad > 0 {
+				break
+			}
+		}
+		r.Validated()
+		r.Nontrivial(id)
+		r.Outcome("long-line")
+		return fmt.Sprint(bad)
+	})
+}
+
+// longStateProblems is stateProblems without the three-image naming (digests are printed in hex).
+func longStateProblems(files map[string][]byte) [][2]string {
+	var out [][2]string
+	m := &rpb.VMEndorsementMap{}
+	if err := prototext.Unmarshal(files["out/manifest.textproto"], m); err != nil {
+		return [][2]string{{"manifest-unparseable", err.Error()}}
+	}
+	paths, digs := map[string]int{}, map[string]int{}
+	for _, e := range m.Entries {
+		paths[e.Path]++
+		digs[hex.EncodeToString(e.Digest)]++
+		fb, ok := files["out/"+e.Path]
+		if !ok {
+			out = append(out, [2]string{"entry-without-file", fmt.Sprintf("manifest entry %s names no existing endorsement file", e.Path)})
+			continue
+		}
+		if d, _ := signedDigest(fb); !bytes.Equal(d, e.Digest) {
+			out = append(out, [2]string{"entry-digest-differs-from-signed", fmt.Sprintf("entry %s lists digest %x… but the file endorses %x…", e.Path, e.Digest[:4], d[:4])})
+		}
+	}
+	for p, n := range paths {
+		if n > 1 {
+			out = append(out, [2]string{"duplicate-path", fmt.Sprintf("path %s listed %d times in a manifest of %d entries", p, n, len(m.Entries))})
+		}
+	}
+	for d, n := range digs {
+		if n > 1 {
+			out = append(out, [2]string{"duplicate-digest", fmt.Sprintf("digest %s… listed %d times in a manifest of %d entries", d[:8], n, len(m.Entries))})
+		}
+	}
+	return out
 }
